@@ -196,7 +196,7 @@ _W1 = _hello(1, 7, 40, ["never"])
 # GATE instance: wired AND wireless, every attribute tuple and every name length symbolic - the writers abstracted by the presence /
 # length part of their own proved contracts (see h_hello.c); decides which writers answerHello calls under which platform answers.
 H("hello_gate", src="h_hello.c", fn="h_answer_hello", props=["C04", "C02", "C03", "C01", "C18", "C19", "C17"], enforce=["answerHello"], unwind=8,
-  unwindset={"v_build_state.0": 50}, defines=["V_HELLO_GATE=1", "V_TXCAP=256", "V_LIST_MAX=3"], must_reach=["end", "tx", "wireless", "wired"], shards=8,
+  unwindset={"v_build_state.0": 50}, defines=["V_HELLO_GATE=1", "V_TXCAP=256", "V_LIST_MAX=3"], must_reach=["end", "tx", "wireless", "wired"], shards=6, mem_est_gb=6,
   bounded="property writers abstracted to (presence, legal length, header bytes) as their contracts state; transmit buffer modelled with a constant capacity of 256 bytes")
 
 # ---------------------------------------------------------------- platform layer / embedded entry point / closure
@@ -204,6 +204,11 @@ import closure
 H("linux_getters", src="h_linux_port.c", props=["C04"], port_model=False, unwind=8,
   enforce=["lltd_port_get_mtu", "lltd_port_get_if_type", "lltd_port_get_link_speed_100bps"],
   cc_flags=["-DLINUX"], must_reach=["end", "ok"], no_native=True)
+H("linux_ifaddrs", src="h_linux_port.c", props=["C04"], port_model=False, unwind=8,
+  enforce=["lltd_port_get_ipv4_address", "lltd_port_get_ipv6_address"], cc_flags=["-DLINUX"], no_native=True,
+  unwindset={"memcpy.0": 18, "h_linux_ifaddrs.0": 8, "h_linux_ifaddrs.1": 18, "v_ifa_build.0": 18, "v_ifa_build.1": 8, "strcmp.0": 6},
+  must_reach=["end", "found4-later", "found6", "none4"],
+  bounded="getifaddrs lists of at most 3 entries, interface names of at most 3 characters (environment model of getifaddrs / freeifaddrs trusted)")
 H("esp32_frame", src="h_esp32.c", props=["C01", "C18"], unwind=8, safety_props=["C18"], shards=8,
   unwindset={"h_esp32_frame.0": 42, "h_esp32_frame.1": 42, "h_esp32_frame.2": 42, "switch_state_mapping.0": 130,
              "switch_state_session.0": 130, "switch_state_enumeration.0": 130},
@@ -219,6 +224,12 @@ H("linux_fill", src="h_linux_daemon.c", props=["C01", "C04", "C18"], enforce=["f
 H("linux_loop", src="h_linux_daemon.c", props=["C01", "C17"], enforce=["lltdLoop"], replace=["parseFrame", "switch_state_mapping", "switch_state_session"],
   loops=True, loops_file=os.path.join(os.path.dirname(os.path.dirname(os.path.abspath(__file__))), "harness", "h_linux_daemon.loops.json"),
   unwind=12, unwindset=_LD_US, must_reach=["end"], no_native=True, loop_contracts=["lltdLoop.0"])
+H("linux_fill_sd", src="h_linux_daemon.c", fn="h_linux_fill", props=["C01", "C04", "C18"], enforce=["fillInterfaceDetails"], unwind=12, unwindset=_LD_US, safety_props=["C18"],
+  defines=["V_SYSTEMD=1"], cbmc_flags=["--malloc-may-fail", "--malloc-fail-null"], must_reach=["end", "ok", "failed"], no_native=True,
+  bounded=None)
+H("linux_loop_sd", src="h_linux_daemon.c", fn="h_linux_loop", props=["C01", "C17"], enforce=["lltdLoop"], replace=["parseFrame", "switch_state_mapping", "switch_state_session"],
+  defines=["V_SYSTEMD=1"], loops=True, loops_file=os.path.join(os.path.dirname(os.path.dirname(os.path.abspath(__file__))), "harness", "h_linux_daemon.loops.json"),
+  unwind=12, unwindset=_LD_US, must_reach=["end"], no_native=True, loop_contracts=["lltdLoop.0"])
 # (a harness of the daemon's main - the per-interface start sequence up to pthread_create, with the obligation "the thread context satisfies
 # lltdLoop's precondition" - was built and could not be decided: out of memory at 24 GB with CBMC's safety checks, with and without DFCC,
 # and no result within 900 s with the checks off and the constructors replaced by their contracts; see DESIGN.md section 4, C01)
@@ -232,8 +243,8 @@ H("parse_query_symmtu", src="h_probe_query.c", fn="h_parse_query", props=_PQ, en
   must_reach=["end", "answered", "overflow", "tx"], shards=4,
   bounded="symbolic small MTU 54..135 (every residue of (MTU-34) mod 20, capacity 1..5) with an over-sized transmit object whose writes are checked against the requested size; outside the property's MTU range, code uniform in MTU")
 PROPS = {
-    "C01": {"harnesses": _FRAME_PATH + ["tlv_writers", "wire_headers", "derive", "derive_oob", "esp32_frame", "linux_fill", "linux_loop", "map_step", "sess_step", "enum_step", "tick"],
-            "harnesses_quick": ["parse_frame"] + _H1 + _HANDLERS + ["tlv_writers", "wire_headers", "derive_oob", "esp32_frame", "linux_fill", "linux_loop", "map_step", "sess_step", "enum_step"]},
+    "C01": {"harnesses": _FRAME_PATH + ["tlv_writers", "wire_headers", "derive", "derive_oob", "esp32_frame", "linux_fill", "linux_loop", "linux_fill_sd", "linux_loop_sd", "map_step", "sess_step", "enum_step", "tick"],
+            "harnesses_quick": ["parse_frame"] + _H1 + _HANDLERS + ["tlv_writers", "wire_headers", "derive_oob", "esp32_frame", "linux_fill", "linux_loop", "linux_fill_sd", "linux_loop_sd", "map_step", "sess_step", "enum_step"]},
     "C02": {"harnesses": _FRAME_PATH + ["tlv_writers", "tlv_determinism", "hello_gate", "wire_headers", "wire_headers_be"],
             "harnesses_quick": ["parse_frame"] + _HELLO_QUICK[:2] + _HANDLERS + ["tlv_writers", "tlv_determinism", "wire_headers", "wire_headers_be"]},
     "C09": {"harnesses": ["parse_frame", "state_for_iface", "state_clear", "parse_probe", "parse_query", "parse_qlt", "send_ltr", "parse_emit", "send_probe"] + _H1,
@@ -243,15 +254,15 @@ PROPS = {
             "adopt": {"harnesses": ["parse_probe", "parse_query", "parse_qlt", "send_ltr", "parse_emit", "send_probe"] + _H1,
                       "props": ["C02", "C03", "C06", "C07", "C08", "C10"]},
             "explanation": "Reset arm and record creation are proved here; the determinism of every handler's outputs in (record, frame, configuration) is what the handler contracts proved under C03/C06/C07/C08 state"},
-    "C17": {"harnesses": ["parse_frame", "send_probe", "parse_probe", "parse_query", "parse_qlt", "tlv_writers", "state_for_iface", "linux_loop"] + _H1,
-            "harnesses_quick": ["parse_frame", "send_probe", "parse_probe", "parse_query", "parse_qlt", "state_for_iface", "linux_loop"],
+    "C17": {"harnesses": ["parse_frame", "send_probe", "parse_probe", "parse_query", "parse_qlt", "tlv_writers", "state_for_iface", "linux_loop", "linux_loop_sd"] + _H1,
+            "harnesses_quick": ["parse_frame", "send_probe", "parse_probe", "parse_query", "parse_qlt", "state_for_iface", "linux_loop", "linux_loop_sd"],
             "extra_steps": [closure.core_globals]},
     "C19": {"harnesses": _FRAME_PATH + ["ctor_mapping", "ctor_enum", "ctor_session", "tab_create", "state_for_iface", "state_clear"],
             "harnesses_quick": ["parse_frame"] + _H1 + _HANDLERS + ["ctor_mapping", "ctor_enum", "ctor_session", "tab_create", "state_for_iface", "state_clear"]},
     "C20": {"harnesses": [], "extra_steps": [closure.core_closure], "level": "other",
             "explanation": "closure condition of the modular proof: the linked core's undefined functions are exactly port-API functions (goto level and, for every compiler x optimisation x hosted/freestanding setting of the property, object level); the repository's own lint rule; no system header beyond the freestanding set",
             "technique": "closure check of the contract proof: undefined-function set of the linked core (goto-instrument, nm over the stated compiler matrix) compared with the functions declared in lltdPort.h; DFCC additionally fails any call to a function with neither body nor contract"},
-    "C04": {"harnesses": ["tlv_writers", "tlv_writers_be", "wire_headers_be", "linux_getters", "hello_gate"] + _HELLO_ALL},
+    "C04": {"harnesses": ["tlv_writers", "tlv_writers_be", "wire_headers_be", "linux_getters", "linux_ifaddrs", "hello_gate"] + _HELLO_ALL},
     "C03": {"harnesses": _HELLO_ALL + ["wire_headers", "parse_frame"]},
     "C05": {"harnesses": ["parse_frame", "parse_emit", "parse_query", "parse_qlt"] + _H1,
             "explanation": "parseFrame is proved with the handlers replaced by their contracts; the mapper clauses of those contracts (C05.emit-state, C05.query-mapper, C05.qlt-state, C05.hello-state) are proved on the handlers here"},
@@ -265,8 +276,8 @@ PROPS = {
     "C14": {"harnesses": ["map_step", "tick", "mt_reset_charge", "mt_on_charge", "mt_check_charge", "mt_check_inactive", "mt_reset_inactive"]},
     "C12": {"harnesses": ["tick", "enum_step"]},
     "C15": {"harnesses": ["sess_step"]},
-    "C18": {"harnesses": ["ctor_mapping", "ctor_enum", "ctor_session", "tab_create", "state_for_iface", "esp32_frame", "linux_fill"] + [h for h in _FRAME_PATH if h != "parse_emit_strict"],
-            "harnesses_quick": ["ctor_mapping", "ctor_enum", "ctor_session", "tab_create", "state_for_iface", "esp32_frame", "linux_fill", "parse_frame"] + _H1 + [h for h in _HANDLERS if h != "parse_emit_strict"]},
+    "C18": {"harnesses": ["ctor_mapping", "ctor_enum", "ctor_session", "tab_create", "state_for_iface", "esp32_frame", "linux_fill", "linux_fill_sd"] + [h for h in _FRAME_PATH if not h.startswith("parse_emit_strict")],
+            "harnesses_quick": ["ctor_mapping", "ctor_enum", "ctor_session", "tab_create", "state_for_iface", "esp32_frame", "linux_fill", "linux_fill_sd", "parse_frame"] + _H1 + [h for h in _HANDLERS if not h.startswith("parse_emit_strict")]},
     "C13": {
         "harnesses": ["band_update", "band_choose", "band_dohello", "band_heard", "band_init", "c13_monotone", "tick"],
         "explanation": "band_* functions enforced against contracts whose postconditions are the closed forms of "
